@@ -1,7 +1,7 @@
 (* C02: every differentiation rule regenerated from aldi/differentiators.py is the true
    derivative (Coquelicot [is_derive]); the tree evaluator that folds them computes the
    derivative of the residual along any differentiable curve of evaluation points. *)
-From Coq Require Import Reals Lra Lia ZArith List String Bool.
+From Coq Require Import Reals Lra Lia ZArith List String Bool FunctionalExtensionality.
 From Coquelicot Require Import Coquelicot.
 From Verif Require Import lib.Dual lib.DualR gen.AldiGen model.AldiTree model.AldiDen model.AldiMaps.
 Import ListNotations.
@@ -573,3 +573,143 @@ Proof.
 Qed.
 
 End EvalCorrect.
+
+(* ------------------------------------------------------------------------------ *)
+(* partial derivatives: plain tokens, log-variables, steady level and change       *)
+(* ------------------------------------------------------------------------------ *)
+
+Lemma token_eqb_eq : forall a b : token, token_eqb a b = true <-> a = b.
+Proof.
+  intros [q s] [q' s']. unfold token_eqb. simpl. rewrite andb_true_iff, !Z.eqb_eq.
+  split; [ intros [-> ->]; reflexivity | intros E; inversion E; auto ].
+Qed.
+
+Lemma token_eqb_refl : forall a, token_eqb a a = true.
+Proof. intros. now apply token_eqb_eq. Qed.
+
+Lemma token_eqb_neq : forall a b : token, token_eqb a b = false <-> a <> b.
+Proof.
+  intros a b. split.
+  - intros E H. apply token_eqb_eq in H. congruence.
+  - intros H. destruct (token_eqb a b) eqn:E; [ apply token_eqb_eq in E; contradiction | reflexivity ].
+Qed.
+
+Lemma upd_same : forall rho v, upd rho v (rho v) = rho.
+Proof.
+  intros rho v. apply functional_extensionality. intros w. unfold upd.
+  destruct (token_eqb w v) eqn:E; [ apply token_eqb_eq in E; now subst | reflexivity ].
+Qed.
+
+Lemma atom_diff_zero : forall b v, atom_diff RD b v 0 = 0.
+Proof. intros [|] v; unfold atom_diff; simpl; ring. Qed.
+
+Lemma is_derive_id_R : forall x : R, is_derive (fun u : R => u) x 1.
+Proof. intros x. exact (@is_derive_id R_AbsRing x). Qed.
+
+(* the derivative seed used for the k-th component of the diff vectors: 1 on the k-th wrt token *)
+Lemma ind_same : forall v, ind RD v v = 1.
+Proof. intros v. unfold ind. now rewrite token_eqb_refl. Qed.
+Lemma ind_other : forall v w, w <> v -> ind RD v w = 0.
+Proof. intros v w H. unfold ind. apply token_eqb_neq in H. now rewrite H. Qed.
+
+(* 1. w.r.t. an occurrence of a variable that is not a log-variable *)
+Theorem partial_plain : forall (t : tree RD) (rho : token -> R) (lg : Z -> bool) (v : token),
+  lg (fst v) = false -> adm t rho ->
+  result_ok (fun u => upd rho v u) (rho v) t (eval RD rho (ind RD v) lg t).
+Proof.
+  intros t rho lg v Hlg Hadm.
+  pose proof (eval_correct (fun u => upd rho v u) (ind RD v) lg (rho v) t) as H.
+  rewrite upd_same in H. apply H; [ | assumption ].
+  intros w _. unfold leaf_ok. rewrite upd_same.
+  destruct (token_eqb w v) eqn:E.
+  - apply token_eqb_eq in E. subst w. rewrite Hlg, ind_same. unfold atom_diff. simpl.
+    apply (is_derive_ext (fun u : R => u)); [ intros u; unfold upd; now rewrite token_eqb_refl | apply is_derive_id_R ].
+  - assert (Hne : w <> v) by now apply token_eqb_neq.
+    rewrite (ind_other v w Hne), atom_diff_zero.
+    apply (is_derive_ext (fun _ : R => rho w)); [ intros u; unfold upd; now rewrite E | apply is_derive_const_R ].
+Qed.
+
+(* 2. w.r.t. the logarithm of an occurrence of a log-variable *)
+Theorem partial_log : forall (t : tree RD) (rho : token -> R) (lg : Z -> bool) (v : token),
+  lg (fst v) = true -> 0 < rho v -> adm t rho ->
+  result_ok (fun u => upd rho v (exp u)) (ln (rho v)) t (eval RD rho (ind RD v) lg t).
+Proof.
+  intros t rho lg v Hlg Hpos Hadm.
+  pose proof (eval_correct (fun u => upd rho v (exp u)) (ind RD v) lg (ln (rho v)) t) as H.
+  cbv beta in H. rewrite (exp_ln _ Hpos), upd_same in H. apply H; [ | assumption ].
+  intros w _. unfold leaf_ok. cbv beta. rewrite (exp_ln _ Hpos), upd_same.
+  destruct (token_eqb w v) eqn:E.
+  - apply token_eqb_eq in E. subst w. rewrite Hlg, ind_same. unfold atom_diff. simpl.
+    apply (is_derive_ext exp); [ intros u; unfold upd; now rewrite token_eqb_refl | ].
+    eapply is_derive_eq; [ apply is_derive_exp | rewrite (exp_ln _ Hpos); ringR ].
+  - assert (Hne : w <> v) by now apply token_eqb_neq.
+    rewrite (ind_other v w Hne), atom_diff_zero.
+    apply (is_derive_ext (fun _ : R => rho w)); [ intros u; unfold upd; now rewrite E | apply is_derive_const_R ].
+Qed.
+
+(* 3. steady state: the data are a path  level + shift * change  (exponentiated for log-variables); the
+      unknowns are the (log) level and the (log) change of each quantity; all lags and leads move together *)
+Definition steady_path (lg : Z -> bool) (lev chg : Z -> R) : token -> R :=
+  fun w => let y := lev (fst w) + IZR (snd w) * chg (fst w) in if lg (fst w) then exp y else y.
+Definition updz (f : Z -> R) (q : Z) (u : R) : Z -> R := fun p => if Z.eqb p q then u else f p.
+
+Lemma updz_same : forall f q, updz f q (f q) = f.
+Proof.
+  intros f q. apply functional_extensionality. intros p. unfold updz.
+  destruct (Z.eqb p q) eqn:E; [ apply Z.eqb_eq in E; now subst | reflexivity ].
+Qed.
+
+Theorem steady_level_correct : forall (t : tree RD) (lg : Z -> bool) (lev chg : Z -> R) (q0 : Z),
+  adm t (steady_path lg lev chg) ->
+  result_ok (fun u => steady_path lg (updz lev q0 u) chg) (lev q0) t
+            (eval RD (steady_path lg lev chg) (seed_level RD q0) lg t).
+Proof.
+  intros t lg lev chg q0 Hadm.
+  pose proof (eval_correct (fun u => steady_path lg (updz lev q0 u) chg) (seed_level RD q0) lg (lev q0) t) as H.
+  cbv beta in H. rewrite updz_same in H. apply H; [ | assumption ].
+  intros [q s] _. unfold leaf_ok. cbv beta. rewrite updz_same. unfold steady_path, seed_level, updz. simpl.
+  destruct (Z.eqb q q0) eqn:E.
+  - apply Z.eqb_eq in E. subst q. destruct (lg q0); unfold atom_diff; simpl.
+    + ad_start; [ ad_conds | ringR ].
+    + ad_start; [ ad_conds | ringR ].
+  - rewrite atom_diff_zero. apply is_derive_const_R.
+Qed.
+
+Theorem steady_change_correct : forall (t : tree RD) (lg : Z -> bool) (lev chg : Z -> R) (q0 : Z),
+  adm t (steady_path lg lev chg) ->
+  result_ok (fun u => steady_path lg lev (updz chg q0 u)) (chg q0) t
+            (eval RD (steady_path lg lev chg) (seed_change RD q0) lg t).
+Proof.
+  intros t lg lev chg q0 Hadm.
+  pose proof (eval_correct (fun u => steady_path lg lev (updz chg q0 u)) (seed_change RD q0) lg (chg q0) t) as H.
+  cbv beta in H. rewrite updz_same in H. apply H; [ | assumption ].
+  intros [q s] _. unfold leaf_ok. cbv beta. rewrite updz_same. unfold steady_path, seed_change, updz. simpl.
+  destruct (Z.eqb q q0) eqn:E.
+  - apply Z.eqb_eq in E. subst q. destruct (lg q0); unfold atom_diff; simpl.
+    + ad_start; [ ad_conds | ringR ].
+    + ad_start; [ ad_conds | ringR ].
+  - rewrite atom_diff_zero. apply is_derive_const_R.
+Qed.
+
+(* an equation does not depend on tokens that do not occur in it: those derivatives are 0 *)
+Lemma den_ext : forall (t : tree RD) rho rho', (forall v, In v (vars RD t) -> rho v = rho' v) -> den t rho = den t rho'.
+Proof.
+  induction t as [c | q s | a IHa | a IHa | o a IHa b IHb | f a IHa | f a IHa b IHb | f a IHa]; intros rho rho' H; simpl.
+  - reflexivity.
+  - apply H. simpl. auto.
+  - now apply IHa.
+  - f_equal. now apply IHa.
+  - rewrite (IHa rho rho'), (IHb rho rho'); [ reflexivity | | ]; intros v Hv; apply H; simpl; rewrite in_app_iff; auto.
+  - f_equal. now apply IHa.
+  - rewrite (IHa rho rho'), (IHb rho rho'); [ reflexivity | | ]; intros v Hv; apply H; simpl; rewrite in_app_iff; auto.
+  - f_equal. now apply IHa.
+Qed.
+
+Theorem partial_absent : forall (t : tree RD) rho v (g : R -> R) x, ~ In v (vars RD t) ->
+  is_derive (fun u => den t (upd rho v (g u))) x 0.
+Proof.
+  intros t rho v g x Hn.
+  apply (is_derive_ext (fun _ : R => den t rho)); [ | apply is_derive_const_R ].
+  intros u. apply den_ext. intros w Hw. unfold upd.
+  destruct (token_eqb w v) eqn:E; [ apply token_eqb_eq in E; subst; contradiction | reflexivity ].
+Qed.
